@@ -41,6 +41,7 @@ theorem pick_spec {t : Nat} {rs a b : List Run} {r : Run} (h : pick t rs = some 
 theorem run_induction (c : Cfg) (P : State → Prop) (h0 : P {})
     (hsettle : ∀ s, P s → P (settle c s))
     (hfire : ∀ s t, P s → P (fire c s t))
+    (hexpire : ∀ s d, P s → s.deadline = some d → s.runs ≠ [] → P (expire c s d))
     (hnow : ∀ s t, P s → P { s with now := max s.now t })
     (haccept : ∀ s x, P s → s.stopped = false → P (accept s x))
     (hstop : ∀ s, P s → P (doStop c s)) :
@@ -53,9 +54,20 @@ theorem run_induction (c : Cfg) (P : State → Prop) (h0 : P {})
       intro s h
       simp only [advance]
       split
-      · split
-        · exact ih _ (hfire _ _ h)
-        · exact h
+      · next m hm =>
+        split
+        · next d hd =>
+          split
+          · refine ih _ (hexpire _ _ h ?_ ?_)
+            · unfold deadlineFirst at hd
+              split at hd
+              · next d' hd' => split at hd <;> simp_all
+              · cases hd
+            · intro hr; rw [hr] at hm; simp [minTill] at hm
+          · exact h
+        · split
+          · exact ih _ (hfire _ _ h)
+          · exact h
       · exact h
   have hadvTo : ∀ bound s, P s → P (advanceTo c bound s) := by
     intro bound s h
@@ -96,6 +108,7 @@ theorem run_induction (c : Cfg) (P : State → Prop) (h0 : P {})
 @[simp] theorem emit_stopped (s : State) (e : Ev) : (emit s e).stopped = s.stopped := rfl
 @[simp] theorem emit_sdPending (s : State) (e : Ev) : (emit s e).sdPending = s.sdPending := rfl
 @[simp] theorem emit_nacc (s : State) (e : Ev) : (emit s e).nacc = s.nacc := rfl
+@[simp] theorem emit_deadline (s : State) (e : Ev) : (emit s e).deadline = s.deadline := rfl
 @[simp] theorem emit_log (s : State) (e : Ev) : (emit s e).log = (s.now, e) :: s.log := rfl
 
 @[simp] theorem discards_runs (s : State) (j : Job) (q : List Job) : (discards s j q).runs = s.runs := by
@@ -113,6 +126,9 @@ theorem run_induction (c : Cfg) (P : State → Prop) (h0 : P {})
   induction q generalizing s j <;> simp_all [discards]
 @[simp] theorem discards_nacc (s : State) (j : Job) (q : List Job) : (discards s j q).nacc = s.nacc := by
   induction q generalizing s j <;> simp_all [discards]
+@[simp] theorem discards_deadline (s : State) (j : Job) (q : List Job) :
+    (discards s j q).deadline = s.deadline := by
+  induction q generalizing s j <;> simp_all [discards]
 
 @[simp] theorem startRun_runs (s : State) (j : Job) :
     (startRun s j).runs = s.runs ++ [⟨j, true, s.now + j.data.dur⟩] := rfl
@@ -122,6 +138,7 @@ theorem run_induction (c : Cfg) (P : State → Prop) (h0 : P {})
 @[simp] theorem startRun_stopped (s : State) (j : Job) : (startRun s j).stopped = s.stopped := rfl
 @[simp] theorem startRun_sdPending (s : State) (j : Job) : (startRun s j).sdPending = s.sdPending := rfl
 @[simp] theorem startRun_nacc (s : State) (j : Job) : (startRun s j).nacc = s.nacc := rfl
+@[simp] theorem startRun_deadline (s : State) (j : Job) : (startRun s j).deadline = s.deadline := rfl
 @[simp] theorem startRun_log (s : State) (j : Job) :
     (startRun s j).log = (s.now, .start j) :: (s.now, .out (s.output + 1)) :: s.log := rfl
 
@@ -132,6 +149,7 @@ theorem run_induction (c : Cfg) (P : State → Prop) (h0 : P {})
 @[simp] theorem countDown_stopped (s : State) : (countDown s).stopped = s.stopped := rfl
 @[simp] theorem countDown_sdPending (s : State) : (countDown s).sdPending = s.sdPending := rfl
 @[simp] theorem countDown_nacc (s : State) : (countDown s).nacc = s.nacc := rfl
+@[simp] theorem countDown_deadline (s : State) : (countDown s).deadline = s.deadline := rfl
 @[simp] theorem countDown_log (s : State) : (countDown s).log = (s.now, .out (s.output - 1)) :: s.log := rfl
 
 @[simp] theorem startAll_queue (s : State) (q : List Job) : (startAll s q).queue = s.queue := by
@@ -144,6 +162,8 @@ theorem run_induction (c : Cfg) (P : State → Prop) (h0 : P {})
   induction q generalizing s <;> simp_all [startAll]
 @[simp] theorem startAll_nacc (s : State) (q : List Job) : (startAll s q).nacc = s.nacc := by
   induction q generalizing s <;> simp_all [startAll]
+@[simp] theorem startAll_deadline (s : State) (q : List Job) : (startAll s q).deadline = s.deadline := by
+  induction q generalizing s <;> simp_all [startAll]
 theorem startAll_runs (s : State) (q : List Job) :
     (startAll s q).runs = s.runs ++ q.map (fun j => ⟨j, true, s.now + j.data.dur⟩) := by
   induction q generalizing s <;> simp_all [startAll]
@@ -151,6 +171,100 @@ theorem startAll_output (s : State) (q : List Job) : (startAll s q).output = s.o
   induction q generalizing s with
   | nil => simp [startAll]
   | cons j q ih => simp [startAll, ih]; omega
+
+/-! ### stop_timeout expiry -/
+
+@[simp] theorem expire_queue (c : Cfg) (s : State) (d : Nat) : (expire c s d).queue = s.queue := rfl
+@[simp] theorem expire_output (c : Cfg) (s : State) (d : Nat) : (expire c s d).output = s.output := rfl
+@[simp] theorem expire_stopped (c : Cfg) (s : State) (d : Nat) : (expire c s d).stopped = s.stopped := rfl
+@[simp] theorem expire_sdPending (c : Cfg) (s : State) (d : Nat) : (expire c s d).sdPending = s.sdPending := rfl
+@[simp] theorem expire_nacc (c : Cfg) (s : State) (d : Nat) : (expire c s d).nacc = s.nacc := rfl
+@[simp] theorem expire_now (c : Cfg) (s : State) (d : Nat) : (expire c s d).now = max s.now d := rfl
+@[simp] theorem expire_deadline (c : Cfg) (s : State) (d : Nat) : (expire c s d).deadline = none := rfl
+@[simp] theorem expire_runs (c : Cfg) (s : State) (d : Nat) :
+    (expire c s d).runs = s.runs.map (toGuard c (max s.now d)) := rfl
+theorem expire_log (c : Cfg) (s : State) (d : Nat) :
+    (expire c s d).log = expireEvents (max s.now d) s.runs ((max s.now d, Ev.timeout) :: s.log) := rfl
+
+@[simp] theorem toGuard_coro (c : Cfg) (now : Nat) (r : Run) : (toGuard c now r).coro = false := by
+  unfold toGuard; split <;> simp_all
+@[simp] theorem toGuard_job (c : Cfg) (now : Nat) (r : Run) : (toGuard c now r).job = r.job := by
+  unfold toGuard; split <;> rfl
+theorem toGuard_of_guard (c : Cfg) (now : Nat) (r : Run) (h : r.coro = false) : toGuard c now r = r := by
+  unfold toGuard; simp [h]
+
+theorem expireEvents_append (now : Nat) (rs : List Run) (l : List (Nat × Ev)) :
+    expireEvents now rs l = expireEvents now rs [] ++ l := by
+  induction rs generalizing l with
+  | nil => rfl
+  | cons r rs ih =>
+    simp only [expireEvents]
+    rw [ih, ih (if r.coro = true then _ else [])]
+    split <;> simp
+
+theorem expireEvents_mem {now : Nat} {rs : List Run} {x : Nat × Ev} :
+    x ∈ expireEvents now rs [] ↔
+      ∃ r ∈ rs, r.coro = true ∧ (x = (now, Ev.cancelled r.job) ∨ x = (now, Ev.canc r.job)) := by
+  induction rs with
+  | nil => simp [expireEvents]
+  | cons r rs ih =>
+    simp only [expireEvents]
+    rw [expireEvents_append, List.mem_append, ih]
+    by_cases hc : r.coro = true
+    · simp only [hc, if_true, List.mem_cons, List.not_mem_nil, or_false]
+      constructor
+      · rintro (⟨r', hr', h1, h2⟩ | h | h)
+        · exact ⟨r', Or.inr hr', h1, h2⟩
+        · exact ⟨r, Or.inl rfl, hc, Or.inr h⟩
+        · exact ⟨r, Or.inl rfl, hc, Or.inl h⟩
+      · rintro ⟨r', hr', h1, h2⟩
+        rcases hr' with rfl | hr'
+        · rcases h2 with h2 | h2
+          · exact Or.inr (Or.inr h2)
+          · exact Or.inr (Or.inl h2)
+        · exact Or.inl ⟨r', hr', h1, h2⟩
+    · simp only [hc]
+      constructor
+      · rintro (⟨r', hr', h1, h2⟩ | h)
+        · exact ⟨r', List.mem_cons_of_mem _ hr', h1, h2⟩
+        · simp at h
+      · rintro ⟨r', hr', h1, h2⟩
+        rcases List.mem_cons.mp hr' with rfl | hr'
+        · exact absurd h1 hc
+        · exact Or.inl ⟨r', hr', h1, h2⟩
+
+/-- the new part of the log after an expiry -/
+def expireNew (now : Nat) (rs : List Run) : List (Nat × Ev) := expireEvents now rs [] ++ [(now, Ev.timeout)]
+
+theorem expire_log_eq (c : Cfg) (s : State) (d : Nat) :
+    (expire c s d).log = expireNew (max s.now d) s.runs ++ s.log := by
+  rw [expire_log, expireEvents_append]; simp [expireNew]
+
+theorem expireNew_mem {now : Nat} {rs : List Run} {x : Nat × Ev} (h : x ∈ expireNew now rs) :
+    x = (now, Ev.timeout) ∨
+      ∃ r ∈ rs, r.coro = true ∧ (x = (now, Ev.cancelled r.job) ∨ x = (now, Ev.canc r.job)) := by
+  simp only [expireNew, List.mem_append, List.mem_singleton] at h
+  rcases h with h | h
+  · exact Or.inr (expireEvents_mem.mp h)
+  · exact Or.inl h
+
+theorem expire_log_sub (c : Cfg) (s : State) (d : Nat) : ∀ x ∈ s.log, x ∈ (expire c s d).log := by
+  intro x hx; rw [expire_log_eq]; exact List.mem_append_right _ hx
+
+theorem expire_timeout_mem (c : Cfg) (s : State) (d : Nat) :
+    (max s.now d, Ev.timeout) ∈ (expire c s d).log := by
+  rw [expire_log_eq]; apply List.mem_append_left; simp [expireNew]
+
+/-- projections of the log that ignore cancellations and the timeout marker are unchanged -/
+theorem filterMap_expireNew (f : Ev → Option Job) (hf1 : ∀ j, f (Ev.canc j) = none)
+    (hf2 : ∀ j, f (Ev.cancelled j) = none) (hf3 : f Ev.timeout = none) (now : Nat) (rs : List Run) :
+    (expireNew now rs).filterMap (fun e => f e.2) = [] := by
+  rw [List.filterMap_eq_nil_iff]
+  intro x hx
+  rcases expireNew_mem hx with rfl | ⟨r, _, _, rfl | rfl⟩
+  · exact hf3
+  · exact hf2 _
+  · exact hf1 _
 
 /-! ### case analysis of the controller step and of a firing timer -/
 
@@ -266,9 +380,12 @@ theorem doStop_countInv (c : Cfg) (s : State) (h : CountInv c s) : CountInv c (d
       · simpa [CountInv] using h
       · simpa [CountInv, accept] using h
 
+theorem expire_countInv (c : Cfg) (s : State) (d : Nat) (h : CountInv c s) : CountInv c (expire c s d) := by
+  simpa [CountInv] using h
+
 theorem run_countInv (c : Cfg) (ops : List Op) : CountInv c (run c ops) :=
   run_induction c (CountInv c) (by simp [CountInv]) (settle_countInv c) (fire_countInv c)
-    (fun _ _ h => h) (fun s x h _ => accept_countInv c s x h) (doStop_countInv c) ops
+    (fun s d h _ _ => expire_countInv c s d h) (fun _ _ h => h) (fun s x h _ => accept_countInv c s x h) (doStop_countInv c) ops
 
 
 /-! ### termination: every internal step lowers `measure`; `finish` reaches the idle state -/
@@ -276,8 +393,10 @@ theorem run_countInv (c : Cfg) (ops : List Op) : CountInv c (run c ops) :=
 def runCost (r : Run) : Nat := if r.coro then 2 else 1
 def sdCost (o : Option Job) : Nat := if o.isSome then 2 else 0
 
+def dlCost (o : Option Nat) : Nat := if o.isSome then 1 else 0
+
 theorem measure_def (s : State) :
-    measure s = 2 * s.queue.length + (s.runs.map runCost).sum + sdCost s.sdPending := rfl
+    measure s = 2 * s.queue.length + (s.runs.map runCost).sum + sdCost s.sdPending + dlCost s.deadline := rfl
 
 theorem sum_map_const2 (q : List Job) : (q.map (fun j => runCost ⟨j, true, t + j.data.dur⟩)).sum = 2 * q.length := by
   induction q with
@@ -353,6 +472,29 @@ theorem measure_zero_runs (s : State) (h : measure s = 0) : s.runs = [] := by
     have : 1 ≤ runCost r := by unfold runCost; split <;> omega
     simp [measure_def, hr] at h; omega
 
+theorem toGuard_cost (c : Cfg) (now : Nat) (rs : List Run) :
+    ((rs.map (toGuard c now)).map runCost).sum ≤ (rs.map runCost).sum := by
+  induction rs with
+  | nil => simp
+  | cons r rs ih =>
+    have : runCost (toGuard c now r) ≤ runCost r := by
+      unfold toGuard runCost; split <;> simp_all
+    simp only [List.map_cons, List.sum_cons]; omega
+
+theorem expire_measure (c : Cfg) (s : State) (d : Nat) (h : s.deadline.isSome) :
+    measure (expire c s d) < measure s := by
+  have := toGuard_cost c (max s.now d) s.runs
+  have hd : dlCost s.deadline = 1 := by simp [dlCost, h]
+  have hn : dlCost (none : Option Nat) = 0 := rfl
+  simp only [measure_def, expire_queue, expire_runs, expire_sdPending, expire_deadline, hd, hn]
+  omega
+
+theorem deadlineFirst_some {s : State} {m d : Nat} (h : deadlineFirst s m = some d) : s.deadline.isSome := by
+  unfold deadlineFirst at h
+  split at h
+  · next hd => simp [hd]
+  · cases h
+
 /-- with enough fuel the unbounded `advance` stops only when no run is left -/
 theorem advance_none_runs (c : Cfg) (fuel : Nat) (s : State) (h : measure s ≤ fuel) :
     (advance c none fuel s).runs = [] := by
@@ -362,12 +504,17 @@ theorem advance_none_runs (c : Cfg) (fuel : Nat) (s : State) (h : measure s ≤ 
     simp only [advance]
     split
     · next m hm =>
-      simp only [due, if_true]
-      apply ih
-      have := fire_measure c s m (minTill_pick _ _ hm)
-      omega
+      split
+      · next d hd =>
+        simp only [due, if_true]
+        apply ih
+        have := expire_measure c s d (deadlineFirst_some hd)
+        omega
+      · simp only [due, if_true]
+        apply ih
+        have := fire_measure c s m (minTill_pick _ _ hm)
+        omega
     · next hm => exact minTill_none _ hm
-
 
 /-! ### after the controller has run nothing startable is left waiting -/
 
@@ -429,6 +576,18 @@ theorem fire_quiet (c : Cfg) (s : State) (t : Nat) (h : Quiet c s) : Quiet c (fi
   · intro a r b _ _ _ _; exact settle_quiet _ _
   · intro a r b _ _ _; exact settle_quiet _ _
 
+theorem expire_quiet (c : Cfg) (s : State) (d : Nat) (h : Quiet c s) : Quiet c (expire c s d) := by
+  obtain ⟨h1, h2, h3⟩ := h
+  refine ⟨fun hm hr => ?_, fun hm => ⟨fun hr => ?_, ?_⟩, fun hm => ⟨(h3 hm).1, fun hp hs hr => ?_⟩⟩
+  · exact h1 hm (by simpa using hr)
+  · exact (h2 hm).1 (by simpa using hr)
+  · intro r rest hr hc
+    have : r ∈ (expire c s d).runs := by rw [hr]; simp
+    simp only [expire_runs, List.mem_map] at this
+    obtain ⟨r0, _, rfl⟩ := this
+    simp at hc
+  · exact (h3 hm).2 hp hs (by simpa using hr)
+
 theorem advance_quiet (c : Cfg) (bound : Option (Nat × Bool)) (fuel : Nat) (s : State) (h : Quiet c s) :
     Quiet c (advance c bound fuel s) := by
   induction fuel generalizing s with
@@ -437,8 +596,12 @@ theorem advance_quiet (c : Cfg) (bound : Option (Nat × Bool)) (fuel : Nat) (s :
     simp only [advance]
     split
     · split
-      · exact ih _ (fire_quiet c s _ h)
-      · exact h
+      · split
+        · exact ih _ (expire_quiet c s _ h)
+        · exact h
+      · split
+        · exact ih _ (fire_quiet c s _ h)
+        · exact h
     · exact h
 
 /-! ### stop_data waits in `sdPending` only in start mode and only after `stop()` -/
@@ -479,9 +642,12 @@ theorem doStop_sdInv (c : Cfg) (s : State) (h : SdInv c s) : SdInv c (doStop c s
       · next hm => simp [SdInv, hm]
       · simp [SdInv, accept] at *; exact h.1
 
+theorem expire_sdInv (c : Cfg) (s : State) (d : Nat) (h : SdInv c s) : SdInv c (expire c s d) := by
+  simpa [SdInv] using h
+
 theorem run_sdInv (c : Cfg) (ops : List Op) : SdInv c (run c ops) :=
   run_induction c (SdInv c) (by simp [SdInv]) (settle_sdInv c) (fire_sdInv c)
-    (fun _ _ h => h) (fun s x h _ => by simpa [SdInv, accept] using h) (doStop_sdInv c) ops
+    (fun s d h _ _ => expire_sdInv c s d h) (fun _ _ h => h) (fun s x h _ => by simpa [SdInv, accept] using h) (doStop_sdInv c) ops
 
 theorem run_snoc (c : Cfg) (ops : List Op) (op : Op) : run c (ops ++ [op]) = step c (run c ops) op := by
   simp [run, List.foldl_append]
@@ -646,10 +812,45 @@ theorem doStop_balanced (c : Cfg) (s : State) (h : Balanced s) (hsd : SdInv c s)
       simpa [Balanced, pendJobs] using this
 
 
+theorem resJobs_expireEvents (now : Nat) (rs : List Run) (l : List (Nat × Ev)) (x : Job) :
+    (resJobs (expireEvents now rs l)).count x
+      = (resJobs l).count x + ((rs.filter (·.coro)).map (·.job)).count x := by
+  induction rs generalizing l with
+  | nil => simp [expireEvents]
+  | cons r rs ih =>
+    simp only [expireEvents]
+    rw [ih]
+    by_cases hc : r.coro = true
+    · simp [hc, evRes, List.count_cons]; omega
+    · simp [hc]
+
+theorem filter_toGuard (c : Cfg) (now : Nat) (rs : List Run) :
+    (rs.map (toGuard c now)).filter (·.coro) = [] := by
+  rw [List.filter_eq_nil_iff]
+  intro r hr
+  simp only [List.mem_map] at hr
+  obtain ⟨r0, _, rfl⟩ := hr
+  simp
+
+theorem putJobs_expire (c : Cfg) (s : State) (d : Nat) : putJobs (expire c s d).log = putJobs s.log := by
+  rw [expire_log_eq]
+  simp only [putJobs, List.filterMap_append]
+  rw [filterMap_expireNew evPut (fun _ => rfl) (fun _ => rfl) rfl]; rfl
+
+theorem expire_balanced (c : Cfg) (s : State) (d : Nat) (h : Balanced s) : Balanced (expire c s d) := by
+  intro x
+  have hx := h x
+  have hr := resJobs_expireEvents (max s.now d) s.runs ((max s.now d, Ev.timeout) :: s.log) x
+  rw [putJobs_expire, expire_log, hr]
+  simp only [pendJobs, expire_queue, expire_runs, expire_sdPending, filter_toGuard] at hx ⊢
+  simp [evRes, List.count_append] at hx ⊢
+  omega
+
 theorem run_balanced (c : Cfg) (ops : List Op) : Balanced (run c ops) := by
   have := run_induction c (fun s => Balanced s ∧ SdInv c s) ⟨by simp [Balanced, putJobs, resJobs, pendJobs], by simp [SdInv]⟩
     (fun s h => ⟨settle_balanced c s h.1, settle_sdInv c s h.2⟩)
     (fun s t h => ⟨fire_balanced c s t h.1, fire_sdInv c s t h.2⟩)
+    (fun s d h _ _ => ⟨expire_balanced c s d h.1, expire_sdInv c s d h.2⟩)
     (fun _ _ h => h)
     (fun s x h _ => ⟨accept_balanced s x h.1, by simpa [SdInv, accept] using h.2⟩)
     (fun s h => by
@@ -728,6 +929,7 @@ theorem run_uniq (c : Cfg) (ops : List Op) : UniqInv (run c ops) := by
   · simp [UniqInv, putJobs]
   · intro s h; have := settle_put c s; simpa [UniqInv, this.1, this.2] using h
   · intro s t h; have := fire_put c s t; simpa [UniqInv, this.1, this.2] using h
+  · intro s d h _ _; simpa [UniqInv, putJobs_expire] using h
   · intro s t h; exact h
   · intro s x h _; exact uniq_add s _ x h (by simp [accept, evPut]) rfl
   · intro s h
@@ -790,6 +992,11 @@ theorem run_fifo (c : Cfg) (ops : List Op) : Fifo c (run c ops) := by
   · intro _; rfl
   · exact settle_fifo c
   · exact fire_fifo c
+  · intro s d h _ _ hm
+    have := h hm
+    rw [putJobs_expire, this, expire_log_eq]
+    simp only [startJobs, List.filterMap_append, expire_queue]
+    rw [filterMap_expireNew evStart (fun _ => rfl) (fun _ => rfl) rfl]; rfl
   · intro s t h; exact h
   · intro s x h _ hm; have := h hm; simp [accept, evPut, evStart, this]
   · intro s h hm
@@ -809,10 +1016,11 @@ def evCancel : Ev → Option Job
   | .cancelled j => some j
   | _ => none
 
-/-- every cancellation in the log is preceded (in time) by the arrival of a newer put -/
+/-- every cancellation in the log is preceded (in time) by the arrival of a newer put, or happens in
+    the instant in which stop_timeout expired -/
 def CancOK (log : List (Nat × Ev)) : Prop :=
   ∀ t e j, (t, e) ∈ log → evCancel e = some j →
-    ∃ k t', j.seq < k.seq ∧ t' ≤ t ∧ (t', Ev.put k) ∈ log
+    (∃ k t', j.seq < k.seq ∧ t' ≤ t ∧ (t', Ev.put k) ∈ log) ∨ (t, Ev.timeout) ∈ log
 
 theorem cancOK_cons {log : List (Nat × Ev)} {t : Nat} {e : Ev} (h : CancOK log)
     (hnew : ∀ j, evCancel e = some j → ∃ k t', j.seq < k.seq ∧ t' ≤ t ∧ (t', Ev.put k) ∈ log) :
@@ -821,10 +1029,21 @@ theorem cancOK_cons {log : List (Nat × Ev)} {t : Nat} {e : Ev} (h : CancOK log)
   cases hmem with
   | head =>
     obtain ⟨k, t', h1, h2, h3⟩ := hnew j hj
-    exact ⟨k, t', h1, h2, List.mem_cons_of_mem _ h3⟩
+    exact Or.inl ⟨k, t', h1, h2, List.mem_cons_of_mem _ h3⟩
   | tail _ hmem =>
-    obtain ⟨k, t', h1, h2, h3⟩ := h t1 e1 j hmem hj
-    exact ⟨k, t', h1, h2, List.mem_cons_of_mem _ h3⟩
+    rcases h t1 e1 j hmem hj with ⟨k, t', h1, h2, h3⟩ | hto
+    · exact Or.inl ⟨k, t', h1, h2, List.mem_cons_of_mem _ h3⟩
+    · exact Or.inr (List.mem_cons_of_mem _ hto)
+
+theorem cancOK_append {new log : List (Nat × Ev)} (h : CancOK log)
+    (hnew : ∀ x ∈ new, ∀ j, evCancel x.2 = some j → (x.1, Ev.timeout) ∈ new ++ log) :
+    CancOK (new ++ log) := by
+  intro t e j hmem hj
+  rcases List.mem_append.mp hmem with hm | hm
+  · exact Or.inr (hnew (t, e) hm j hj)
+  · rcases h t e j hm hj with ⟨k, t', h1, h2, h3⟩ | hto
+    · exact Or.inl ⟨k, t', h1, h2, List.mem_append_right _ h3⟩
+    · exact Or.inr (List.mem_append_right _ hto)
 
 theorem cancOK_cons_other {log : List (Nat × Ev)} {t : Nat} {e : Ev} (h : CancOK log)
     (he : evCancel e = none) : CancOK ((t, e) :: log) :=
@@ -1059,6 +1278,18 @@ theorem run_cancInv (c : Cfg) (ops : List Op) : CancInv (run c ops) := by
   · exact ⟨⟨by simp, by simp, by simp, by simp, by simp⟩, by simp, by intro t e j h; simp at h⟩
   · exact settle_cancInv c
   · exact fire_cancInv c
+  · intro s d ⟨hQ, hsd, hc⟩ _ _
+    refine ⟨?_, by simpa using hsd, ?_⟩
+    · refine qInv_mono (s := s) rfl ?_ (Nat.le_refl _) (by simp; omega) (expire_log_sub c s d) hQ
+      intro r' hr'
+      simp only [expire_runs, List.mem_map] at hr'
+      obtain ⟨r, hr, rfl⟩ := hr'
+      exact ⟨r, hr, by simp⟩
+    · rw [expire_log_eq]
+      apply cancOK_append hc
+      intro x hx j _
+      rcases expireNew_mem hx with rfl | ⟨r, _, _, rfl | rfl⟩ <;>
+      · apply List.mem_append_left; simp [expireNew]
   · intro s t ⟨hQ, hsd, hc⟩
     exact ⟨qInv_mono (s := s) rfl (fun r' hr' => ⟨r', hr', rfl⟩) (Nat.le_refl _) (Nat.le_max_left _ _)
       (fun e he => he) hQ, hsd, hc⟩
@@ -1274,11 +1505,42 @@ theorem gInv_put (c : Cfg) (s s' : State) (j : Job) (hlog : s'.log = (s.now, Ev.
     · exact Or.inl hm
   · rw [hlog]; exact sepOK_cons_other rfl (h.2 hm)
 
+theorem sepOK_append_other {g : Nat} {new l : List (Nat × Ev)} (h : SepOK g l)
+    (hnew : ∀ x ∈ new, evStart x.2 = none) : SepOK g (new ++ l) := by
+  induction new with
+  | nil => exact h
+  | cons x new ih =>
+    obtain ⟨t, e⟩ := x
+    exact sepOK_cons_other (hnew (t, e) (by simp)) (ih (fun y hy => hnew y (List.mem_cons_of_mem _ hy)))
+
+theorem expire_gInv (c : Cfg) (s : State) (d : Nat) (h : GInv c s) : GInv c (expire c s d) := by
+  refine ⟨g2_step (s := s) ?_ (by simp; omega) ?_ h.1, fun hm => ?_⟩
+  · intro t1 e hm ho
+    rw [expire_log_eq] at hm
+    rcases List.mem_append.mp hm with hm | hm
+    · rcases expireNew_mem hm with h0 | ⟨r, hr, hc, h1 | h1⟩
+      · cases h0; simp [evOver] at ho
+      · cases h1
+        right; right
+        refine ⟨toGuard c (max s.now d) r, by simp only [expire_runs]; exact List.mem_map_of_mem hr, by simp, ?_⟩
+        simp [toGuard, hc]
+      · cases h1; simp [evOver] at ho
+    · exact Or.inl hm
+  · intro r hr hc
+    left
+    simp only [expire_runs, List.mem_map]
+    exact ⟨r, hr, toGuard_of_guard _ _ _ hc⟩
+  · rw [expire_log_eq]
+    apply sepOK_append_other (h.2 hm)
+    intro x hx
+    rcases expireNew_mem hx with rfl | ⟨r, _, _, rfl | rfl⟩ <;> rfl
+
 theorem run_gInv (c : Cfg) (ops : List Op) : GInv c (run c ops) := by
   apply run_induction c (GInv c)
   · exact ⟨by intro t1 e hm; simp at hm, fun _ => trivial⟩
   · exact settle_gInv c
   · exact fire_gInv c
+  · exact fun s d h _ _ => expire_gInv c s d h
   · intro s t h
     exact ⟨g2_step (s := s) (fun t1 e hm _ => Or.inl hm) (Nat.le_max_left _ _) (fun r hr _ => Or.inl hr) h.1, h.2⟩
   · intro s x h _; exact gInv_put c s _ ⟨s.nacc, x⟩ rfl rfl rfl h
@@ -1305,40 +1567,41 @@ theorem sepOK_split {g : Nat} {log l1 l2 : List (Nat × Ev)} {t2 : Nat} {k : Job
     exact ih h.2 rfl
 
 
-/-! ### wait and start mode never cancel -/
+/-! ### wait and start mode cancel nothing -- except in the instant in which stop_timeout expires -/
 
 def NoCancel (c : Cfg) (s : State) : Prop :=
-  c.mode ≠ Mode.cancel → ∀ t e, (t, e) ∈ s.log → evCancel e = none
+  c.mode ≠ Mode.cancel → ∀ t e, (t, e) ∈ s.log → evCancel e = none ∨ (t, Ev.timeout) ∈ s.log
 
 theorem noCancel_ext {c : Cfg} {s s' : State}
-    (hlog : ∀ t e, (t, e) ∈ s'.log → (t, e) ∈ s.log ∨ evCancel e = none) (h : NoCancel c s) : NoCancel c s' := by
+    (hlog : ∃ l, s'.log = l ++ s.log ∧ ∀ x ∈ l, evCancel x.2 = none ∨ (x.1, Ev.timeout) ∈ l)
+    (h : NoCancel c s) : NoCancel c s' := by
+  obtain ⟨l, hl, hnew⟩ := hlog
   intro hm t e hmem
-  rcases hlog t e hmem with h1 | h1
-  · exact h hm t e h1
-  · exact h1
+  rw [hl] at hmem ⊢
+  rcases List.mem_append.mp hmem with h1 | h1
+  · rcases hnew (t, e) h1 with h2 | h2
+    · exact Or.inl h2
+    · exact Or.inr (List.mem_append_left _ h2)
+  · rcases h hm t e h1 with h2 | h2
+    · exact Or.inl h2
+    · exact Or.inr (List.mem_append_right _ h2)
+
+theorem evCancel_result (r : Run) : evCancel (if r.job.data.fail then Ev.err r.job else Ev.succ r.job) = none := by
+  cases r.job.data.fail <;> rfl
+
+theorem startRun_noCancel (c : Cfg) (s : State) (j : Job) (h : NoCancel c s) : NoCancel c (startRun s j) :=
+  noCancel_ext ⟨[_, _], rfl, by simp [evCancel]⟩ h
 
 theorem startAll_noCancel (c : Cfg) (s : State) (q : List Job) (h : NoCancel c s) : NoCancel c (startAll s q) := by
   induction q generalizing s with
   | nil => exact h
-  | cons j q ih =>
-    apply ih
-    apply noCancel_ext _ h
-    intro t e hm; simp at hm
-    rcases hm with ⟨_, rfl⟩ | ⟨_, rfl⟩ | hm
-    · exact Or.inr rfl
-    · exact Or.inr rfl
-    · exact Or.inl hm
+  | cons j q ih => exact ih _ (startRun_noCancel c s j h)
 
 theorem settle_noCancel (c : Cfg) (s : State) (h : NoCancel c s) : NoCancel c (settle c s) := by
   apply settle_cases
   · exact h
   · intro _ j q _ _
-    apply noCancel_ext _ h
-    intro t e hm; simp at hm
-    rcases hm with ⟨_, rfl⟩ | ⟨_, rfl⟩ | hm
-    · exact Or.inr rfl
-    · exact Or.inr rfl
-    · exact Or.inl hm
+    exact startRun_noCancel c _ j (fun hm t e hmem => h hm t e hmem)
   · intro hm _ _ _ _ hne; exact absurd hm hne
   · intro hm _ _ _ _ _ _ _ hne; exact absurd hm hne
   · intro _
@@ -1346,60 +1609,47 @@ theorem settle_noCancel (c : Cfg) (s : State) (h : NoCancel c s) : NoCancel c (s
     unfold startStopData
     split
     · split
-      · apply noCancel_ext _ h1
-        intro t e hm; simp at hm
-        rcases hm with ⟨_, rfl⟩ | ⟨_, rfl⟩ | hm
-        · exact Or.inr rfl
-        · exact Or.inr rfl
-        · exact Or.inl hm
+      · exact startRun_noCancel c _ _ (fun hm t e hmem => h1 hm t e hmem)
       · exact h1
     · exact h1
-
-theorem evCancel_result (r : Run) : evCancel (if r.job.data.fail then Ev.err r.job else Ev.succ r.job) = none := by
-  cases r.job.data.fail <;> rfl
 
 theorem fire_noCancel (c : Cfg) (s : State) (t : Nat) (h : NoCancel c s) : NoCancel c (fire c s t) := by
   apply fire_cases
   · intro _; exact h
   · intro a r b _ _ _ _
-    apply noCancel_ext _ h
-    intro t e hm; simp [afterCoro] at hm
-    rcases hm with ⟨_, rfl⟩ | ⟨_, rfl⟩ | hm
-    · exact Or.inr (evCancel_result r)
-    · exact Or.inr rfl
-    · exact Or.inl hm
+    refine noCancel_ext (s := s) ⟨[_, _], rfl, ?_⟩ h
+    intro x hx
+    simp only [List.mem_cons, List.not_mem_nil, or_false] at hx
+    rcases hx with rfl | rfl
+    · exact Or.inl (evCancel_result r)
+    · exact Or.inl rfl
   · intro a r b _ _ _ _
     apply settle_noCancel
-    apply noCancel_ext _ h
-    intro t e hm; simp [afterCoro] at hm
-    rcases hm with ⟨_, rfl⟩ | ⟨_, rfl⟩ | ⟨_, rfl⟩ | hm
-    · exact Or.inr rfl
-    · exact Or.inr (evCancel_result r)
-    · exact Or.inr rfl
-    · exact Or.inl hm
+    refine noCancel_ext (s := s) ⟨[_, _, _], rfl, ?_⟩ h
+    intro x hx
+    simp only [List.mem_cons, List.not_mem_nil, or_false] at hx
+    rcases hx with rfl | rfl | rfl
+    · exact Or.inl rfl
+    · exact Or.inl (evCancel_result r)
+    · exact Or.inl rfl
   · intro a r b _ _ _
     apply settle_noCancel
-    apply noCancel_ext _ h
-    intro t e hm; simp at hm
-    rcases hm with ⟨_, rfl⟩ | hm
-    · exact Or.inr rfl
-    · exact Or.inl hm
+    exact noCancel_ext (s := s) ⟨[_], rfl, by simp [evCancel]⟩ h
 
-theorem noCancel_put (c : Cfg) (s s' : State) (j : Job) (hlog : s'.log = (s.now, Ev.put j) :: s.log)
-    (h : NoCancel c s) : NoCancel c s' := by
-  apply noCancel_ext _ h
-  intro t e hm; rw [hlog] at hm; simp at hm
-  rcases hm with ⟨_, rfl⟩ | hm
-  · exact Or.inr rfl
-  · exact Or.inl hm
+theorem expire_noCancel (c : Cfg) (s : State) (d : Nat) (h : NoCancel c s) : NoCancel c (expire c s d) := by
+  refine noCancel_ext (s := s) ⟨_, expire_log_eq c s d, ?_⟩ h
+  intro x hx
+  right
+  rcases expireNew_mem hx with rfl | ⟨r, _, _, rfl | rfl⟩ <;> simp [expireNew]
 
 theorem run_noCancel (c : Cfg) (ops : List Op) : NoCancel c (run c ops) := by
   apply run_induction c (NoCancel c)
   · intro _ t e hm; simp at hm
   · exact settle_noCancel c
   · exact fire_noCancel c
+  · exact fun s d h _ _ => expire_noCancel c s d h
   · intro s t h; exact h
-  · intro s x h _; exact noCancel_put c s _ ⟨s.nacc, x⟩ rfl h
+  · intro s x h _; exact noCancel_ext (s := s) ⟨[_], rfl, by simp [evCancel]⟩ h
   · intro s h
     unfold doStop
     split
@@ -1408,15 +1658,15 @@ theorem run_noCancel (c : Cfg) (ops : List Op) : NoCancel c (run c ops) := by
       · exact fun hm t e hmem => h hm t e hmem
       · next d _ =>
         split
-        · exact noCancel_put c s _ ⟨s.nacc, d⟩ rfl h
-        · exact noCancel_put c s _ ⟨s.nacc, d⟩ rfl h
-
+        · exact noCancel_ext (s := s) ⟨[_], rfl, by simp [evCancel]⟩ h
+        · exact noCancel_ext (s := s) ⟨[_], rfl, by simp [evCancel]⟩ h
 
 /-! ### induction where timers fire and time passes only after the controller has run -/
 
 theorem run_induction_quiet (c : Cfg) (P : State → Prop) (h0 : P {})
     (hsettle : ∀ s, P s → P (settle c s))
     (hfire : ∀ s t, P s → Quiet c s → P (fire c s t))
+    (hexpire : ∀ s d, P s → Quiet c s → P (expire c s d))
     (hnow : ∀ s t, P s → Quiet c s → P { s with now := max s.now t })
     (haccept : ∀ s x, P s → s.stopped = false → P (accept s x))
     (hstop : ∀ s, P s → P (doStop c s)) :
@@ -1430,8 +1680,12 @@ theorem run_induction_quiet (c : Cfg) (P : State → Prop) (h0 : P {})
       simp only [advance]
       split
       · split
-        · exact ih _ (hfire _ _ h hq) (fire_quiet c s _ hq)
-        · exact h
+        · split
+          · exact ih _ (hexpire _ _ h hq) (expire_quiet c s _ hq)
+          · exact h
+        · split
+          · exact ih _ (hfire _ _ h hq) (fire_quiet c s _ hq)
+          · exact h
       · exact h
   have hadvTo : ∀ bound s, P s → P (advanceTo c bound s) := by
     intro bound s h
@@ -1564,6 +1818,16 @@ theorem run_startAt (c : Cfg) (ops : List Op) : StartAt c (run c ops) := by
   · intro _ t j hm; simp at hm
   · exact settle_startAt c
   · exact fire_startAt c
+  · intro s d h hq hm t' j hput
+    have hold : (t', Ev.put j) ∈ s.log := by
+      rw [expire_log_eq] at hput
+      rcases List.mem_append.mp hput with hx | hx
+      · rcases expireNew_mem hx with h0 | ⟨r, _, _, h0 | h0⟩ <;> cases h0
+      · exact hx
+    rcases h hm t' j hold with ⟨hjq, _⟩ | hs | ⟨h1, h2, h3⟩
+    · rw [(hq.2.2 hm).1] at hjq; cases hjq
+    · exact Or.inr (Or.inl (expire_log_sub c s d _ hs))
+    · exact Or.inr (Or.inr ⟨h1, h2, h3⟩)
   · intro s t h hq hm t' j hput
     rcases h hm t' j hput with ⟨hjq, _⟩ | hs | h3
     · have : s.queue = [] := (hq.2.2 hm).1
@@ -1608,6 +1872,7 @@ theorem run_startAt (c : Cfg) (ops : List Op) : StartAt c (run c ops) := by
 def evJob : Ev → Option Job
   | .put _ => none
   | .out _ => none
+  | .timeout => none
   | .start j => some j
   | .done j => some j
   | .cancelled j => some j
@@ -1821,6 +2086,22 @@ theorem run_sdLast (c : Cfg) (ops : List Op) : SdLast c (run c ops) := by
       rw [fire_stopped] at hst
       rw [(fire_put c s t).2]
       exact fire_sdL c _ s t h.1 (h.2 hst d hd)⟩)
+    (fun s d h _ _ => ⟨expire_sdInv c s d h.1, by
+      intro hst dd hd
+      have hst' : s.stopped = true := hst
+      rcases h.2 hst' dd hd with hw | hs
+      · exact Or.inl (sdWaiting_ext (s := s) rfl rfl hw)
+      · right
+        refine sdStarted_ext (s := s) rfl rfl ?_ ⟨_, expire_log_eq c s d, ?_⟩ hs
+        · intro r' hr'
+          simp only [expire_runs, List.mem_map] at hr'
+          obtain ⟨r, hr, rfl⟩ := hr'
+          exact ⟨r, hr, by simp⟩
+        · intro x hx
+          rcases expireNew_mem hx with rfl | ⟨r, hr, _, rfl | rfl⟩
+          · right; rfl
+          · left; simp [evJob, hs.2.2.1 r hr]
+          · left; simp [evJob, hs.2.2.1 r hr]⟩)
     (fun s t h => ⟨h.1, by
       intro hst d hd
       rcases h.2 hst d hd with hw | hs
@@ -1839,5 +2120,347 @@ theorem run_sdLast (c : Cfg) (ops : List Op) : SdLast c (run c ops) := by
         · next hm => left; right; exact ⟨hm, by simp⟩
         · next hm => left; left; exact ⟨hm, s.queue, by simp [accept]⟩⟩) ops
   exact this.2
+
+/-! ### the kind of a result matches what its run did -/
+
+/-- what must accompany an event in the log -/
+def kindWitness (log : List (Nat × Ev)) (t : Nat) : Ev → Prop
+  | .succ j => j.data.fail = false ∧ (t, Ev.done j) ∈ log
+  | .err j => j.data.fail = true ∧ (t, Ev.done j) ∈ log
+  | .done j => (t, Ev.succ j) ∈ log ∨ (t, Ev.err j) ∈ log
+  | .cancelled j => (t, Ev.canc j) ∈ log
+  | _ => True
+
+def KindOK (log : List (Nat × Ev)) : Prop := ∀ t e, (t, e) ∈ log → kindWitness log t e
+
+theorem kindWitness_mono {log log' : List (Nat × Ev)} (hsub : ∀ x ∈ log, x ∈ log') {t : Nat} {e : Ev}
+    (h : kindWitness log t e) : kindWitness log' t e := by
+  cases e with
+  | succ j => exact ⟨h.1, hsub _ h.2⟩
+  | err j => exact ⟨h.1, hsub _ h.2⟩
+  | done j => exact h.elim (fun h => Or.inl (hsub _ h)) (fun h => Or.inr (hsub _ h))
+  | cancelled j => exact hsub _ h
+  | _ => trivial
+
+theorem kindOK_append {new log : List (Nat × Ev)} (h : KindOK log)
+    (hnew : ∀ x ∈ new, kindWitness (new ++ log) x.1 x.2) : KindOK (new ++ log) := by
+  intro t e hm
+  rcases List.mem_append.mp hm with h1 | h1
+  · exact hnew (t, e) h1
+  · exact kindWitness_mono (fun x hx => List.mem_append_right _ hx) (h t e h1)
+
+theorem discards_log_eq (s : State) (j : Job) (q : List Job) :
+    ∃ l, (discards s j q).log = l ++ s.log ∧ ∀ x ∈ l, ∃ k, x.2 = Ev.canc k := by
+  induction q generalizing s j with
+  | nil => exact ⟨[], rfl, by simp⟩
+  | cons k q ih =>
+    obtain ⟨l, hl, hc⟩ := ih (emit s (.canc j)) k
+    refine ⟨l ++ [(s.now, .canc j)], by simp [discards, hl], ?_⟩
+    intro x hx
+    rcases List.mem_append.mp hx with hx | hx
+    · exact hc x hx
+    · simp at hx; exact ⟨j, by rw [hx]⟩
+
+theorem startRun_kindOK (s : State) (j : Job) (h : KindOK s.log) : KindOK (startRun s j).log := by
+  have : (startRun s j).log = [(s.now, Ev.start j), (s.now, Ev.out (s.output + 1))] ++ s.log := rfl
+  rw [this]; apply kindOK_append h
+  intro x hx; simp at hx
+  rcases hx with rfl | rfl <;> simp [kindWitness]
+
+theorem startAll_kindOK (s : State) (q : List Job) (h : KindOK s.log) : KindOK (startAll s q).log := by
+  induction q generalizing s with
+  | nil => exact h
+  | cons j q ih => exact ih _ (startRun_kindOK s j h)
+
+theorem discards_kindOK (s : State) (j : Job) (q : List Job) (h : KindOK s.log) :
+    KindOK (discards s j q).log := by
+  obtain ⟨l, hl, hc⟩ := discards_log_eq s j q
+  rw [hl]; apply kindOK_append h
+  intro x hx
+  obtain ⟨k, hk⟩ := hc x hx
+  rw [hk]; simp [kindWitness]
+
+theorem settle_kindOK (c : Cfg) (s : State) (h : KindOK s.log) : KindOK (settle c s).log := by
+  apply settle_cases c s (fun s' => KindOK s'.log)
+  · exact h
+  · intros; exact startRun_kindOK _ _ h
+  · intros; exact startRun_kindOK _ _ (discards_kindOK _ _ _ h)
+  · intro _ j q r rest _ _ _
+    have : (cancelCur c s r rest).log = [(s.now, Ev.canc r.job), (s.now, Ev.cancelled r.job)] ++ s.log := rfl
+    rw [this]; apply kindOK_append h
+    intro x hx; simp at hx
+    rcases hx with rfl | rfl <;> simp [kindWitness]
+  · intro _
+    have h1 := startAll_kindOK { s with queue := [] } s.queue h
+    unfold startStopData
+    split
+    · split
+      · exact startRun_kindOK _ _ h1
+      · exact h1
+    · exact h1
+
+theorem afterCoro_kindOK (s : State) (t : Nat) (r : Run) (h : KindOK s.log) : KindOK (afterCoro s t r).log := by
+  have : (afterCoro s t r).log =
+      [(max s.now t, if r.job.data.fail then Ev.err r.job else Ev.succ r.job), (max s.now t, Ev.done r.job)]
+        ++ s.log := rfl
+  rw [this]; apply kindOK_append h
+  intro x hx; simp at hx
+  rcases hx with rfl | rfl
+  · cases hf : r.job.data.fail <;> simp [kindWitness, hf]
+  · cases hf : r.job.data.fail <;> simp [kindWitness]
+
+theorem countDown_kindOK (s : State) (h : KindOK s.log) : KindOK (countDown s).log := by
+  have : (countDown s).log = [(s.now, Ev.out (s.output - 1))] ++ s.log := rfl
+  rw [this]; apply kindOK_append h
+  intro x hx; simp at hx; rw [hx]; simp [kindWitness]
+
+theorem fire_kindOK (c : Cfg) (s : State) (t : Nat) (h : KindOK s.log) : KindOK (fire c s t).log := by
+  apply fire_cases c s t (fun s' => KindOK s'.log)
+  · intro _; exact h
+  · intro a r b _ _ _ _; exact afterCoro_kindOK s t r h
+  · intro a r b _ _ _ _
+    apply settle_kindOK
+    exact countDown_kindOK { afterCoro s t r with runs := a ++ b } (afterCoro_kindOK s t r h)
+  · intro a r b _ _ _
+    apply settle_kindOK
+    exact countDown_kindOK { s with now := max s.now t, runs := a ++ b } h
+
+theorem expire_kindOK (c : Cfg) (s : State) (d : Nat) (h : KindOK s.log) : KindOK (expire c s d).log := by
+  rw [expire_log_eq]; apply kindOK_append h
+  intro x hx
+  rcases expireNew_mem hx with rfl | ⟨r, hr, hc, rfl | rfl⟩
+  · simp [kindWitness]
+  · simp only [kindWitness]
+    apply List.mem_append_left
+    simp only [expireNew, List.mem_append]
+    exact Or.inl (expireEvents_mem.mpr ⟨r, hr, hc, Or.inr rfl⟩)
+  · simp [kindWitness]
+
+theorem put_kindOK {log : List (Nat × Ev)} (t : Nat) (j : Job) (h : KindOK log) : KindOK ((t, Ev.put j) :: log) := by
+  have : (t, Ev.put j) :: log = [(t, Ev.put j)] ++ log := rfl
+  rw [this]; apply kindOK_append h
+  intro x hx; simp at hx; rw [hx]; simp [kindWitness]
+
+theorem run_kindOK (c : Cfg) (ops : List Op) : KindOK (run c ops).log := by
+  apply run_induction c (fun s => KindOK s.log)
+  · intro t e hm; simp at hm
+  · exact settle_kindOK c
+  · exact fire_kindOK c
+  · exact fun s d h _ _ => expire_kindOK c s d h
+  · intro s t h; exact h
+  · intro s x h _; exact put_kindOK _ _ h
+  · intro s h
+    unfold doStop
+    split
+    · exact h
+    · split
+      · exact h
+      · split
+        · exact put_kindOK _ _ h
+        · exact put_kindOK _ _ h
+
+/-- two different log entries that are results of the same job make its result count at least 2 -/
+theorem two_results {log : List (Nat × Ev)} {x y : Nat × Ev} {j : Job} (hx : x ∈ log) (hy : y ∈ log)
+    (hne : x ≠ y) (hxj : evRes x.2 = some j) (hyj : evRes y.2 = some j) : 2 ≤ (resJobs log).count j := by
+  induction log with
+  | nil => cases hx
+  | cons z log ih =>
+    obtain ⟨tz, ez⟩ := z
+    simp only [resJobs_cons, List.count_append]
+    rcases List.mem_cons.mp hx with rfl | hx' <;> rcases List.mem_cons.mp hy with rfl | hy'
+    · exact absurd rfl hne
+    · have : 1 ≤ (resJobs log).count j := List.count_pos_iff.mpr (by
+        simp only [resJobs, List.mem_filterMap]; exact ⟨y, hy', hyj⟩)
+      simp only [] at hxj; rw [hxj]; simp; omega
+    · have : 1 ≤ (resJobs log).count j := List.count_pos_iff.mpr (by
+        simp only [resJobs, List.mem_filterMap]; exact ⟨x, hx', hxj⟩)
+      simp only [] at hyj; rw [hyj]; simp; omega
+    · have := ih hx' hy'; omega
+
+/-! ### the stop_timeout clock -/
+
+/-- what the controller and the block's own timers leave alone -/
+def Frame (s s' : State) : Prop :=
+  s'.deadline = s.deadline ∧ s'.stopAt = s.stopAt ∧ s'.stopped = s.stopped ∧ s.now ≤ s'.now ∧
+  ∃ l, s'.log = l ++ s.log ∧ (∀ x ∈ l, x.2 ≠ Ev.timeout) ∧
+    (s.runs ≠ [] → s'.runs ≠ [] ∨ ∃ t' n, s.now ≤ t' ∧ (t', Ev.out n) ∈ l)
+
+theorem frame_refl (s : State) : Frame s s :=
+  ⟨rfl, rfl, rfl, Nat.le_refl _, [], rfl, by simp, fun h => Or.inl h⟩
+
+theorem frame_trans {s1 s2 s3 : State} (h12 : Frame s1 s2) (h23 : Frame s2 s3) : Frame s1 s3 := by
+  obtain ⟨a1, a2, a3, a4, l1, a5, a6, a7⟩ := h12
+  obtain ⟨b1, b2, b3, b4, l2, b5, b6, b7⟩ := h23
+  refine ⟨by rw [b1, a1], by rw [b2, a2], by rw [b3, a3], by omega, l2 ++ l1, by rw [b5, a5]; simp, ?_, ?_⟩
+  · intro x hx
+    rcases List.mem_append.mp hx with hx | hx
+    · exact b6 x hx
+    · exact a6 x hx
+  · intro hr
+    rcases a7 hr with h | ⟨t', n, ht, hm⟩
+    · rcases b7 h with h' | ⟨t', n, ht, hm⟩
+      · exact Or.inl h'
+      · exact Or.inr ⟨t', n, by omega, List.mem_append_left _ hm⟩
+    · exact Or.inr ⟨t', n, ht, List.mem_append_right _ hm⟩
+
+/-- a step that only appends non-timeout events and keeps the runs non-empty -/
+theorem frame_of_append {s s' : State} (l : List (Nat × Ev)) (hd : s'.deadline = s.deadline)
+    (hs : s'.stopAt = s.stopAt) (hst : s'.stopped = s.stopped) (hnow : s.now ≤ s'.now)
+    (hl : s'.log = l ++ s.log) (hnt : ∀ x ∈ l, x.2 ≠ Ev.timeout)
+    (hr : s.runs ≠ [] → s'.runs ≠ [] ∨ ∃ t' n, s.now ≤ t' ∧ (t', Ev.out n) ∈ l) : Frame s s' :=
+  ⟨hd, hs, hst, hnow, l, hl, hnt, hr⟩
+
+theorem startRun_frame (s : State) (j : Job) : Frame s (startRun s j) :=
+  frame_of_append [_, _] rfl rfl rfl (Nat.le_refl _) rfl (by simp) (fun _ => Or.inl (by simp))
+
+theorem startAll_frame (s : State) (q : List Job) : Frame s (startAll s q) := by
+  induction q generalizing s with
+  | nil => exact frame_refl s
+  | cons j q ih => exact frame_trans (startRun_frame s j) (ih _)
+
+theorem discards_frame (s : State) (j : Job) (q : List Job) : Frame s (discards s j q) := by
+  induction q generalizing s j with
+  | nil => exact frame_refl s
+  | cons k q ih =>
+    refine frame_trans ?_ (ih (emit s (.canc j)) k)
+    exact frame_of_append [_] rfl rfl rfl (Nat.le_refl _) rfl (by simp) (fun h => Or.inl h)
+
+theorem settle_frame (c : Cfg) (s : State) : Frame s (settle c s) := by
+  apply settle_cases c s (fun s' => Frame s s')
+  · exact frame_refl s
+  · intro _ j q _ _
+    exact frame_trans (s2 := { s with queue := q })
+      (frame_of_append [] rfl rfl rfl (Nat.le_refl _) rfl (by simp) (fun h => Or.inl h)) (startRun_frame _ j)
+  · intro _ j q _ _
+    exact frame_trans (s2 := { s with queue := [] })
+      (frame_of_append [] rfl rfl rfl (Nat.le_refl _) rfl (by simp) (fun h => Or.inl h))
+      (frame_trans (discards_frame _ j q) (startRun_frame _ _))
+  · intro _ j q r rest _ _ _
+    exact frame_of_append [_, _] rfl rfl rfl (Nat.le_refl _) rfl (by simp) (fun _ => Or.inl (by simp [cancelCur]))
+  · intro _
+    refine frame_trans (s2 := { s with queue := [] })
+      (frame_of_append [] rfl rfl rfl (Nat.le_refl _) rfl (by simp) (fun h => Or.inl h)) ?_
+    refine frame_trans (startAll_frame { s with queue := [] } s.queue) ?_
+    unfold startStopData
+    split
+    · split
+      · exact frame_trans (s2 := { startAll { s with queue := [] } s.queue with sdPending := none })
+          (frame_of_append [] rfl rfl rfl (Nat.le_refl _) rfl (by simp) (fun h => Or.inl h)) (startRun_frame _ _)
+      · exact frame_refl _
+    · exact frame_refl _
+
+theorem result_ne_timeout (r : Run) : (if r.job.data.fail then Ev.err r.job else Ev.succ r.job) ≠ Ev.timeout := by
+  cases r.job.data.fail <;> simp
+
+theorem fire_frame (c : Cfg) (s : State) (t : Nat) : Frame s (fire c s t) := by
+  apply fire_cases c s t (fun s' => Frame s s')
+  · intro _; exact frame_refl s
+  · intro a r b _ _ _ _
+    refine frame_of_append [_, _] rfl rfl rfl (Nat.le_max_left _ _) rfl ?_ (fun _ => Or.inl (by simp))
+    intro x hx; simp at hx
+    rcases hx with rfl | rfl
+    · exact result_ne_timeout r
+    · simp
+  · intro a r b _ _ _ _
+    refine frame_trans (s2 := countDown { afterCoro s t r with runs := a ++ b }) ?_ (settle_frame c _)
+    refine frame_of_append [_, _, _] rfl rfl rfl (Nat.le_max_left _ _) rfl ?_
+      (fun _ => Or.inr ⟨max s.now t, s.output - 1, Nat.le_max_left _ _, by simp [afterCoro]⟩)
+    intro x hx; simp at hx
+    rcases hx with rfl | rfl | rfl
+    · simp
+    · exact result_ne_timeout r
+    · simp
+  · intro a r b _ _ _
+    refine frame_trans (s2 := countDown { s with now := max s.now t, runs := a ++ b }) ?_ (settle_frame c _)
+    exact frame_of_append [_] rfl rfl rfl (Nat.le_max_left _ _) rfl (by simp)
+      (fun _ => Or.inr ⟨max s.now t, s.output - 1, Nat.le_max_left _ _, by simp⟩)
+
+/-- the deadline is stop time + stop_timeout; a `timeout` marker is logged no earlier than that, in one
+    instant only, disarms the deadline, and only while some run was still active (a later output
+    decrement follows, or the run is still there) -/
+def TInv (c : Cfg) (s : State) : Prop :=
+  (∀ D, s.deadline = some D → ∃ ts, s.stopAt = some ts ∧ D = ts + c.stopTimeout) ∧
+  (∀ t, (t, Ev.timeout) ∈ s.log →
+      (∃ ts, s.stopAt = some ts ∧ ts + c.stopTimeout ≤ t) ∧ s.deadline = none ∧
+      ((∃ t' n, t ≤ t' ∧ (t', Ev.out n) ∈ s.log) ∨ (s.runs ≠ [] ∧ t ≤ s.now))) ∧
+  (∀ t1 t2, (t1, Ev.timeout) ∈ s.log → (t2, Ev.timeout) ∈ s.log → t1 = t2) ∧
+  (s.stopAt.isSome → s.stopped = true)
+
+theorem tInv_frame {c : Cfg} {s s' : State} (hf : Frame s s') (h : TInv c s) : TInv c s' := by
+  obtain ⟨f1, f2, f3, f4, l, f5, f6, f7⟩ := hf
+  obtain ⟨h1, h2, h3, h4⟩ := h
+  have hold : ∀ t, (t, Ev.timeout) ∈ s'.log → (t, Ev.timeout) ∈ s.log := by
+    intro t hm; rw [f5] at hm
+    rcases List.mem_append.mp hm with hm | hm
+    · exact absurd rfl (f6 _ hm)
+    · exact hm
+  refine ⟨by rw [f1, f2]; exact h1, ?_, fun t1 t2 a b => h3 t1 t2 (hold _ a) (hold _ b), by rw [f2, f3]; exact h4⟩
+  intro t hm
+  obtain ⟨a, b, cc⟩ := h2 t (hold t hm)
+  refine ⟨by rw [f2]; exact a, by rw [f1]; exact b, ?_⟩
+  rcases cc with ⟨t', n, ht, ho⟩ | ⟨hr, ht⟩
+  · exact Or.inl ⟨t', n, ht, by rw [f5]; exact List.mem_append_right _ ho⟩
+  · rcases f7 hr with hr' | ⟨t', n, ht', ho⟩
+    · exact Or.inr ⟨hr', by omega⟩
+    · exact Or.inl ⟨t', n, by omega, by rw [f5]; exact List.mem_append_left _ ho⟩
+
+theorem expire_tInv (c : Cfg) (s : State) (d : Nat) (hd : s.deadline = some d) (hr : s.runs ≠ [])
+    (h : TInv c s) : TInv c (expire c s d) := by
+  obtain ⟨h1, h2, h3, h4⟩ := h
+  have hnone : ∀ t, (t, Ev.timeout) ∉ s.log := by
+    intro t hm; have := (h2 t hm).2.1; rw [hd] at this; cases this
+  have hnew : ∀ t, (t, Ev.timeout) ∈ (expire c s d).log → t = max s.now d := by
+    intro t hm
+    rw [expire_log_eq] at hm
+    rcases List.mem_append.mp hm with hm | hm
+    · rcases expireNew_mem hm with h0 | ⟨r, _, _, h0 | h0⟩
+      · cases h0; rfl
+      · cases h0
+      · cases h0
+    · exact absurd hm (hnone t)
+  obtain ⟨ts, hts, hD⟩ := h1 d hd
+  refine ⟨by simp, ?_, fun t1 t2 a b => by rw [hnew t1 a, hnew t2 b], h4⟩
+  intro t hm
+  rw [hnew t hm]
+  refine ⟨⟨ts, hts, by omega⟩, rfl, Or.inr ⟨?_, Nat.le_refl _⟩⟩
+  simp only [expire_runs, ne_eq, List.map_eq_nil_iff]; exact hr
+
+theorem run_tInv (c : Cfg) (ops : List Op) : TInv c (run c ops) := by
+  apply run_induction c (TInv c)
+  · exact ⟨by simp, by simp, by simp, by simp⟩
+  · exact fun s h => tInv_frame (settle_frame c s) h
+  · exact fun s t h => tInv_frame (fire_frame c s t) h
+  · exact fun s d h hd hr => expire_tInv c s d hd hr h
+  · intro s t h
+    exact tInv_frame (s := s) (frame_of_append [] rfl rfl rfl (Nat.le_max_left _ _) rfl (by simp)
+      (fun hr => Or.inl hr)) h
+  · intro s x h _
+    exact tInv_frame (s := s) (frame_of_append [_] rfl rfl rfl (Nat.le_refl _) rfl (by simp)
+      (fun hr => Or.inl hr)) h
+  · intro s h
+    unfold doStop
+    split
+    · exact h
+    · next hst =>
+      obtain ⟨h1, h2, h3, h4⟩ := h
+      have hsa : s.stopAt = none := by
+        cases hs : s.stopAt with
+        | none => rfl
+        | some ts => exact absurd (h4 (by simp [hs])) hst
+      have hnone : ∀ t, (t, Ev.timeout) ∉ s.log := by
+        intro t hm; obtain ⟨⟨ts, hts, _⟩, _⟩ := h2 t hm; rw [hsa] at hts; cases hts
+      -- whatever `stop()` queues, it logs at most a put marker
+      have key : ∀ s1 : State, (∀ t, (t, Ev.timeout) ∉ s1.log) → s1.now = s.now →
+          TInv c { s1 with stopped := true, deadline := some (s1.now + c.stopTimeout), stopAt := some s1.now } := by
+        intro s1 hn _
+        exact ⟨fun D hD => ⟨s1.now, rfl, by simp at hD; omega⟩, fun t hm => absurd hm (hn t),
+          fun t1 _ a _ => absurd a (hn t1), fun _ => rfl⟩
+      split
+      · exact key s hnone rfl
+      · split
+        · refine key _ ?_ rfl
+          intro t hm; simp at hm; exact hnone t hm
+        · refine key _ ?_ rfl
+          intro t hm; simp [accept] at hm; exact hnone t hm
 
 end Edzed.OutputAsync
